@@ -2,7 +2,7 @@
 import ast
 import string
 
-from .common import ctx, returns, calls_in_ctx, reach_from_succ, site, srcs_text, orient
+from .common import ctx, returns, calls_in_ctx, reach_from_succ, site, srcs_text, orient, inline_ast
 from ..flow import callee_attr
 from ..linexpr import lin, show, NotLinear
 from ..loader import AnalysisError, norm, NOVALUE
@@ -77,21 +77,18 @@ def run(R):
             R.fail('C09.TBL.1', inst, 'ndn.encoding.tlv_var.' + a, what, f'{a}: {what}: {detail}', tabs[a]['site'])
     fb = ctx(R, CM + '.from_bytes')
     try:
-        sub = {}
-        for n in fb.cfg.nodes:
-            for nm, v in fb.cfg.defs_of(n):
-                if isinstance(v, ast.AST):
-                    sub.setdefault(nm, []).append(v)
-        sub = {k: v[0] for k, v in sub.items() if len(v) == 1}
-        bufs = [v for v in sub.values() if isinstance(v, ast.Call) and ast.unparse(v.func) == 'bytearray']
+        I = lambda e: inline_ast(fb, e)      # single-definition locals (sizes, `length = len(val)`) read as their definitions
+        bufs = [n.ast.value for n in fb.cfg.nodes if n.kind == 'stmt' and isinstance(n.ast, ast.Assign) and isinstance(n.ast.value, ast.Call)
+                and ast.unparse(n.ast.value.func) == 'bytearray']
         want = {'get_tl_num_size(typ)': 1, 'get_tl_num_size(len(val))': 1, 'len(val)': 1}
         ws = [c for (n, c) in sorted(calls_in_ctx(fb, pred=lambda c: ast.unparse(c.func) == 'write_tl_num'), key=lambda x: x[0].id)]
         def off(c):      # the offset argument of write_tl_num (default 0)
             return c.args[2] if len(c.args) > 2 else next((k.value for k in c.keywords if k.arg == 'offset'), ast.Constant(0))
-        ok = len(bufs) == 1 and lin(bufs[0].args[0], sub) == want and len(ws) == 2 and ast.unparse(ws[0].args[0]) == 'typ' and lin(off(ws[0]), sub) == {} \
-            and ast.unparse(ws[1].args[0]) == 'len(val)' and lin(off(ws[1]), sub) == {'get_tl_num_size(typ)': 1}
+        ok = len(bufs) == 1 and lin(I(bufs[0].args[0])) == want and len(ws) == 2 and ast.unparse(I(ws[0].args[0])) == 'typ' and lin(I(off(ws[0]))) == {} \
+            and ast.unparse(I(ws[1].args[0])) == 'len(val)' and lin(I(off(ws[1]))) == {'get_tl_num_size(typ)': 1}
         st = [n for n in fb.cfg.nodes if n.kind == 'stmt' and isinstance(n.ast, ast.Assign) and isinstance(n.ast.targets[0], ast.Subscript)]
-        ok = ok and len(st) == 1 and lin(st[0].ast.targets[0].slice.lower, sub) == {'get_tl_num_size(typ)': 1, 'get_tl_num_size(len(val))': 1} and ast.unparse(st[0].ast.value) == 'val'
+        ok = ok and len(st) == 1 and lin(I(st[0].ast.targets[0].slice.lower)) == {'get_tl_num_size(typ)': 1, 'get_tl_num_size(len(val))': 1} \
+            and ast.unparse(st[0].ast.value) == 'val'
     except NotLinear:
         ok = False
     inst = fb.qual + ' :: component = TL(typ) TL(len) value'
@@ -206,13 +203,90 @@ def run(R):
     inst = 'Name.from_str :: leading / trailing slash and empty components'
     src = strip_doc(fs.f.node)
     conv = _re.search(r'Component\.from_str\(Component\.escape_str\(\w+\)\)', src) is not None
-    okf = "val.startswith('/')" in src and "val.endswith('/')" in src and _re.search(r'\w+ <= 1', src) is not None and "val.split('/')" in src and conv
-    if okf:
-        R.ok('C09.SIB.2', inst, fs.f.loc())
-    elif "val.split('/')" in src and not conv:
+    # explored under every valuation of (starts with '/', ends with '/', nothing left after stripping): exactly the slashes present are stripped
+    # (one each), and the result is empty exactly when nothing is left and at most one slash was stripped (`/` and `` are the empty name, `//` is not)
+    val = fs.f.node.args.args[0].arg
+    from .common import explore_sym
+
+    def slash_atom(e, stt):
+        st = dict(stt)
+        t = ast.unparse(e)
+        if t == f"{val}.startswith('/')":
+            if st.get('#lead'):
+                raise AnalysisError('Name.from_str: a second leading slash is looked at (unrecognised shape, cannot decide C09.SIB.2)')
+            return VAL['S']
+        if t == f"{val}.endswith('/')":
+            if st.get('#trail'):
+                raise AnalysisError('Name.from_str: a second trailing slash is looked at (unrecognised shape, cannot decide C09.SIB.2)')
+            return VAL['E']
+        if t == val:
+            return not VAL['V']
+        if t in (f"{val} == ''", f'len({val}) == 0'):
+            return VAL['V']
+        if t in (f"{val} != ''", f'len({val}) != 0', f'len({val}) > 0'):
+            return not VAL['V']
+        if isinstance(e, ast.Compare) and len(e.ops) == 1 and isinstance(e.left, ast.Name) and e.left.id in st and isinstance(st[e.left.id], int) \
+                and isinstance(e.comparators[0], ast.Constant) and isinstance(e.comparators[0].value, int):
+            a_, b_ = st[e.left.id], e.comparators[0].value
+            return {ast.LtE: a_ <= b_, ast.Lt: a_ < b_, ast.Eq: a_ == b_, ast.NotEq: a_ != b_, ast.Gt: a_ > b_, ast.GtE: a_ >= b_}.get(type(e.ops[0]))
+        return None
+
+    def slash_transfer(n, stt):
+        st = dict(stt)
+        if n.kind == 'stmt' and isinstance(n.ast, ast.Assign) and len(n.ast.targets) == 1 and isinstance(n.ast.targets[0], ast.Name):
+            nm, v = n.ast.targets[0].id, n.ast.value
+            if nm == val:
+                tv = ast.unparse(v)
+                if tv == f'{val}[1:]':
+                    st['#lead'] = True
+                elif tv == f'{val}[:-1]':
+                    st['#trail'] = True
+                elif tv == f"{val}.strip('/')" or 'strip' in tv:
+                    raise AnalysisError('Name.from_str: slashes are stripped in bulk (unrecognised shape, cannot decide C09.SIB.2)')
+                else:
+                    raise AnalysisError(f'Name.from_str: `{norm(n.ast)}` rewrites the text in an unrecognised way (cannot decide C09.SIB.2)')
+            elif isinstance(v, ast.Constant) and isinstance(v.value, int) and not isinstance(v.value, bool):
+                st[nm] = v.value
+            else:
+                st.pop(nm, None)
+        elif n.kind == 'stmt' and isinstance(n.ast, ast.AugAssign) and isinstance(n.ast.target, ast.Name) and n.ast.target.id in st \
+                and isinstance(n.ast.value, ast.Constant) and isinstance(n.ast.value.value, int) and isinstance(n.ast.op, (ast.Add, ast.Sub)):
+            k_ = st[n.ast.target.id]
+            st[n.ast.target.id] = k_ + n.ast.value.value if isinstance(n.ast.op, ast.Add) else k_ - n.ast.value.value
+        return tuple(sorted(st.items()))
+
+    def undecided(n, stt):
+        if any(isinstance(x, ast.Name) and (x.id == val or x.id in dict(stt)) for x in ast.walk(n.ast)):
+            raise AnalysisError(f'Name.from_str: unrecognised condition `{norm(n.ast)}` (cannot decide C09.SIB.2)')
+    rets = returns(fs)
+    probs = []
+    for S_ in (True, False):
+        for E_ in (True, False):
+            for V_ in (True, False):
+                VAL = {'S': S_, 'E': E_, 'V': V_}
+                reached = explore_sym(fs, slash_atom, slash_transfer, (), on_undecided=undecided)
+                outs = set()
+                for r in rets:
+                    for (nid, stt) in reached:
+                        if nid == r.id:
+                            st = dict(stt)
+                            empty = isinstance(r.ast.value, ast.List) and not r.ast.value.elts
+                            outs.add((bool(st.get('#lead')), bool(st.get('#trail')), 'empty' if empty else 'components'))
+                want = {(S_, E_, 'empty' if (V_ and S_ + E_ <= 1) else 'components')}
+                if V_ and S_ + E_ <= 1:
+                    want = {(S_, E_, 'empty')}
+                if outs != want:
+                    probs.append(f"[text {'starts' if S_ else 'does not start'} with '/', {'ends' if E_ else 'does not end'} with '/', "
+                                 f"{'nothing' if V_ else 'something'} left] gives (leading stripped, trailing stripped, result) = {sorted(outs)}, expected {sorted(want)}")
+    R.paths_examined += 8
+    if not conv and f"{val}.split('/')" in src:
         R.fail('C09.SIB.2', inst, fs.qual, 'def from_str', 'URI components are not converted with Component.from_str(Component.escape_str(c)) like the other normalisers', fs.f.loc())
+    elif probs:
+        R.fail('C09.SIB.2', inst, fs.qual, 'def from_str', probs[0] + (f' (+{len(probs) - 1} more)' if len(probs) > 1 else ''), fs.f.loc())
+    elif f"{val}.split('/')" in src and conv:
+        R.ok('C09.SIB.2', inst, fs.f.loc(), '8 valuations')
     else:
-        raise AnalysisError('Name.from_str: slash handling has an unrecognised shape (cannot decide C09.SIB.2)')
+        raise AnalysisError('Name.from_str: the components are not obtained by splitting on `/` (unrecognised shape, cannot decide C09.SIB.2)')
     # ------------------------------------------------------------------ TBL.2 CHARSET
     R.ob('C09.TBL.2', 'URI character classes: raw characters = CHARSET - {%, =}; metacharacters and the separator are never emitted raw; escape_str passes exactly CHARSET')
     cs = fold_charset(P)
@@ -292,42 +366,86 @@ def run(R):
     rets = returns(ip)
     R.need(len(params) == 2 and rets, 'Name.is_prefix: two parameters and a return expected')
     probs = []
+    # roles: a local is the left / right name when every binding that reaches its use is normalize(<first / second parameter>)
+    d1 = {nm: v for n in ip.cfg.nodes for (nm, v) in ip.cfg.defs_of(n) if isinstance(v, ast.AST)}
+
+    def role_at(node, nm):
+        rs = set()
+        for (d, v) in ip.cfg.defs_reaching(node, nm):
+            if isinstance(v, ast.Call) and ast.unparse(v.func).rsplit('.', 1)[-1] == 'normalize' and len(v.args) == 1 \
+                    and isinstance(v.args[0], ast.Name) and v.args[0].id in params:
+                src_ = v.args[0].id
+                # the argument is the raw parameter there (not an earlier re-binding to something else)
+                rs.add('LR'[params.index(src_)])
+            else:
+                rs.add(('raw', nm) if isinstance(v, tuple) else ('other', ast.unparse(v) if isinstance(v, ast.AST) else str(v)))
+        return rs
+    roles = {}
     for r in rets:
-        for p_ in params:
-            if not any(isinstance(x, ast.Name) and x.id == p_ for x in ast.walk(r.ast.value)):
-                continue
-            for (d, v) in ip.cfg.defs_reaching(r, p_):
-                if not (isinstance(v, ast.Call) and ast.unparse(v.func).rsplit('.', 1)[-1] == 'normalize' and len(v.args) == 1
-                        and isinstance(v.args[0], ast.Name) and v.args[0].id == p_):
-                    what = 'the raw argument' if isinstance(v, tuple) else f'`{ast.unparse(v)}`'
-                    probs.append((r.ast, f'`{p_}` can reach the comparison as {what} instead of normalize({p_}): the component-wise comparison is then made '
+        for x in ast.walk(r.ast.value):
+            if isinstance(x, ast.Name) and isinstance(x.ctx, ast.Load) and (x.id in params or x.id in d1) and x.id not in ('len',):
+                v_ = d1.get(x.id)
+                if x.id not in params and isinstance(v_, ast.Call) and ast.unparse(v_.func) == 'len':
+                    continue        # a length local: looked through by is_len
+                rs = role_at(r, x.id)
+                if rs in ({'L'}, {'R'}):
+                    roles[x.id] = rs.pop()
+                elif x.id in params:
+                    bad = next(iter(rs - {'L', 'R'}), None)
+                    what = 'the raw argument' if bad and bad[0] == 'raw' else f'`{bad[1]}`' if bad else 'either side'
+                    probs.append((r.ast, f'`{x.id}` can reach the comparison as {what} instead of normalize({x.id}): the component-wise comparison is then made '
                                          'on something that is not a list of components'))
     if not probs:
         txt = {norm(r.ast) for r in rets}
-        d1 = {nm: v for n in ip.cfg.nodes for (nm, v) in ip.cfg.defs_of(n) if isinstance(v, ast.AST)}
 
-        def is_len(e, par):
-            return ast.unparse(e) == f'len({par})' or (isinstance(e, ast.Name) and ast.unparse(d1.get(e.id, e)) == f'len({par})')
+        def is_role(e, want):
+            return isinstance(e, ast.Name) and roles.get(e.id) == want
+
+        def is_len(e, want):
+            if isinstance(e, ast.Call) and ast.unparse(e.func) == 'len' and len(e.args) == 1:
+                return is_role(e.args[0], want)
+            if isinstance(e, ast.Name) and isinstance(d1.get(e.id), ast.Call) and ast.unparse(d1[e.id].func) == 'len' and len(d1[e.id].args) == 1:
+                # `n = len(x)`: the role of x where n is defined
+                dn = [n for n in ip.cfg.nodes if any(nm == e.id for (nm, _) in ip.cfg.defs_of(n))]
+                a0 = d1[e.id].args[0]
+                return len(dn) == 1 and isinstance(a0, ast.Name) and role_at(dn[0], a0.id) == {want}
+            return False
+
+        def slice_eq(c):
+            """`L == R[:..]` in either order"""
+            if not (isinstance(c, ast.Compare) and len(c.ops) == 1 and isinstance(c.ops[0], ast.Eq)):
+                return False
+            for a_, b_ in ((c.left, c.comparators[0]), (c.comparators[0], c.left)):
+                if is_role(a_, 'L') and isinstance(b_, ast.Subscript) and is_role(b_.value, 'R') and isinstance(b_.slice, ast.Slice) and b_.slice.lower is None \
+                        and b_.slice.step is None and b_.slice.upper is not None and is_len(b_.slice.upper, 'L'):
+                    return True
+            return False
         cmp_rets = [r for r in rets if not (isinstance(r.ast.value, ast.Constant) and r.ast.value.value is False)]
-        sliced = bool(cmp_rets) and all(any(isinstance(c, ast.Compare) and isinstance(c.ops[0], ast.Eq) and ast.unparse(c.left) == params[0] and
-                                            isinstance(c.comparators[0], ast.Subscript) and isinstance(c.comparators[0].slice, ast.Slice)
-                                            and c.comparators[0].slice.lower is None for c in ast.walk(r.ast.value)) for r in cmp_rets)
+        sliced = bool(cmp_rets) and all(any(slice_eq(c) for c in ast.walk(r.ast.value)) for r in cmp_rets)
         if not sliced:
             raise AnalysisError(f'Name.is_prefix: unrecognised comparison {sorted(txt)} (cannot decide C09.SIB.3)')
 
+        def len_le(c):
+            """label-free: `len(L) <= len(R)` / `len(R) >= len(L)`"""
+            if not (isinstance(c, ast.Compare) and len(c.ops) == 1):
+                return False
+            return (isinstance(c.ops[0], ast.LtE) and is_len(c.left, 'L') and is_len(c.comparators[0], 'R')) or \
+                   (isinstance(c.ops[0], ast.GtE) and is_len(c.left, 'R') and is_len(c.comparators[0], 'L'))
+
         def bounded(r):
             # in the same expression ...
-            if any(isinstance(c, ast.Compare) and len(c.ops) == 1 and isinstance(c.ops[0], ast.LtE) and is_len(c.left, params[0]) and is_len(c.comparators[0], params[1])
-                   for c in ast.walk(r.ast.value)):
+            if any(len_le(c) for c in ast.walk(r.ast.value)):
                 return True
             # ... or by a guard `len(lhs) > len(rhs) -> return False` that every path to this return passes on its other edge
             for t in ip.cfg.nodes:
-                if t.kind != 'test':
+                if t.kind != 'test' or not (isinstance(t.ast, ast.Compare) and len(t.ast.ops) == 1):
                     continue
-                o = orient(t.ast, lambda e: is_len(e, params[0]))
-                if o is None or not is_len(o.comparators[0], params[1]):
-                    continue
-                lab_short = {ast.Gt: True, ast.LtE: False}.get(type(o.ops[0]))      # edge on which lhs is longer than rhs
+                c = t.ast
+                lab_short = None        # edge on which the left name is longer than the right one
+                if is_len(c.left, 'L') and is_len(c.comparators[0], 'R'):
+                    lab_short = {ast.Gt: True, ast.LtE: False}.get(type(c.ops[0]))
+                elif is_len(c.left, 'R') and is_len(c.comparators[0], 'L'):
+                    lab_short = {ast.Lt: True, ast.GtE: False}.get(type(c.ops[0]))
                 if lab_short is None:
                     continue
                 longer = reach_from_succ(ip.cfg, t, lab_short, follow_exc=False)
